@@ -277,10 +277,13 @@ def replay(fl, FA, clause, cls, vals):
         return {"failed": not ok, "expected": "increasing" if inc else "decreasing", "observed": [float(a), float(b)], "call": f"{desc}.membership at {lo!r}, {hi!r}"}
     if clause == "elementwise":
         arr = np.array([x, x2, p[t.params[0]], np.inf, -np.inf, np.nan, 0.5 * (x + x2)])
+        keep = arr.copy()
         try:
             got1 = np.asarray(term.membership(arr), dtype=float)
+            if not np.array_equal(arr, keep, equal_nan=True):
+                return {"failed": True, "expected": "argument array unchanged: " + str(keep.tolist()), "observed": arr.tolist(), "call": f"{desc}.membership(array) modified the caller's array"}
             got2 = np.asarray(term.membership(arr.reshape(1, -1)), dtype=float)
-            exp = np.array([mu(v) for v in arr])
+            exp = np.array([mu(v) for v in keep])
             ok = got1.shape == arr.shape and got2.shape == (1, len(arr)) and all(FA.same(u, v) for u, v in zip(got1, exp)) and all(FA.same(u, v) for u, v in zip(got2[0], exp))
             return {"failed": not ok, "expected": exp.tolist(), "observed": got1.tolist(), "call": f"{desc}.membership(array)"}
         except Exception as ex:  # noqa
@@ -307,9 +310,12 @@ def replay(fl, FA, clause, cls, vals):
             return {"failed": not ok, "expected": "increasing" if inc else "decreasing", "observed": [float(a), float(b)], "call": f"{desc}.tsukamoto at {lo!r}, {hi!r}"}
         if clause == "tsukamoto.elementwise":
             arr = np.array([y, y2, 0.5 * (y + y2)])
+            keep = arr.copy()
             try:
                 got = np.asarray(term.tsukamoto(arr), dtype=float)
-                exp = np.array([np.float64(term.tsukamoto(v)) for v in arr])
+                if not np.array_equal(arr, keep):
+                    return {"failed": True, "expected": "argument array unchanged: " + str(keep.tolist()), "observed": arr.tolist(), "call": f"{desc}.tsukamoto(array) modified the caller's array"}
+                exp = np.array([np.float64(term.tsukamoto(v)) for v in keep])
                 ok = got.shape == arr.shape and all(FA.same(u, v) for u, v in zip(got, exp))
                 return {"failed": not ok, "expected": exp.tolist(), "observed": got.tolist(), "call": f"{desc}.tsukamoto(array)"}
             except Exception as ex:  # noqa
@@ -336,3 +342,15 @@ def search(fl, FA, clause, cls, vals, seed=0):
         if r.get("failed"):
             return r
     return {"failed": False, "tried": len(pts)}
+
+
+def replay_refuses(fl, FA, cls, monotonic, vals=None):
+    """terms that are not monotonic refuse tsukamoto with RuntimeError"""
+    t = getattr(fl, cls)()
+    try:
+        z = t.tsukamoto(0.5)
+    except RuntimeError:
+        return {"failed": bool(monotonic), "expected": "a value" if monotonic else "RuntimeError", "observed": "RuntimeError", "call": f"{cls}().tsukamoto(0.5)"}
+    except Exception as ex:  # noqa
+        return {"failed": not monotonic, "expected": "RuntimeError", "observed": f"{type(ex).__name__}", "call": f"{cls}().tsukamoto(0.5)"}
+    return {"failed": not monotonic, "expected": "RuntimeError (term is not monotonic)", "observed": repr(z), "call": f"{cls}().tsukamoto(0.5)"}
